@@ -369,21 +369,23 @@ def exOpts : Opts := { spelling := true, ks := true, ts := true, metr := true, g
 /-- `rows` succeeds on a part with a tie chain, a grace note and a missing voice: the hypotheses of
     rows_bijective / row_values / table_sorted are satisfiable; the chain is one row of duration 6,
     the grace note has duration 0 and voice (max voice) + 1 = 2 -/
-example : ((rows exPart exOpts).map fun t => t.map fun r => (r.id, r.onsetDiv, r.durDiv, r.pitch, r.voice, r.staff)) =
-    some [("g", 0, 0, 51, 2, 0), ("a", 0, 6, 60, 1, 1)] := by decide +kernel
+example : ((rows exPart exOpts).map fun t => t.map fun r => (r.id, r.onsetDiv, r.durDiv, r.pitch, r.voice)) =
+    some [("g", 0, 0, 51, 2), ("a", 0, 6, 60, 1)] := by decide +kernel
+example : ((rows exPart exOpts).map fun t => t.map fun r => (r.id, r.staff, r.isGrace, r.durBeat)) =
+    some [("g", 0, true, 0), ("a", 1, false, 3)] := by decide +kernel
 
 /-- several quarter durations are rejected when the divisions column is requested -/
 example : rows { exPart with qdurs := [2, 3] } exOpts = none := by decide +kernel
 
 example : durationTied exNotes exNotes[0] = some 6 := by decide +kernel
-example : Contiguous [exNotes[0], exNotes[1]] := by decide +kernel
+example : Contiguous [exNotes[0], exNotes[1]] := ⟨by decide +kernel, trivial⟩
 
 /-- a dangling or cyclic tie is an error, not a silent 0 -/
 example : durationTied [{ exNotes[0] with tieNext := some 0 }] { exNotes[0] with tieNext := some 0 } = none := by
   decide +kernel
 
-example : ((restRows exPart false).map fun t => t.map fun r => (r.id, r.onsetDiv, r.durDiv, r.pitch, r.voice, r.step)) =
-    some [("r", 6, 2, 0, 0, "0")] := by decide +kernel
+example : ((restRows exPart false).map fun t => t.map fun r => (r.id, r.onsetDiv, r.durDiv, r.pitch, r.voice)) =
+    some [("r", 6, 2, 0, 0)] := by decide +kernel
 
 example : prefixId 3 "n1" = "P03_n1" ∧ prefixId 12 "x" = "P12_x" ∧ prefixId 100 "" = "P100_" := by decide +kernel
 
@@ -421,7 +423,10 @@ example : (divsFromBeats [(-1/2, 1), (0, 1)]) = (2, [(0, 2), (1, 2)]) := by deci
 
 example : fromArray false true false exArr none = .error .divs ∧ fromArray false false false exArr none = .error .fields ∧
     fromArray true true false [] none = .error .empty ∧
-    fromArray false true false [{ exArr[0] with durDiv := -1 }] (some 3) = .error .negative := by decide +kernel
+    fromArray false true false
+      [{ onsetBeat := 0, durBeat := 0, onsetDiv := 0, durDiv := -1, pitch := 60, tsBeatType := 4 }] (some 3)
+      = .error .negative := by
+  refine ⟨by decide +kernel, by decide +kernel, by decide +kernel, by decide +kernel⟩
 
 /-- a spelling function that keeps the pitch (what C17 proves of `estimate_spelling`) -/
 def exSpell (p : Int) : String × Int × Int :=
